@@ -2,14 +2,14 @@ package an
 
 // Property describes how one property of /verif/properties.jsonl is decided.
 type Property struct {
-	ID       string
-	Title    string
-	Level    string   // evidence level category
-	Rules    []string // obligations of these rules decide the property
-	Floors   map[string]int
-	Explain  string
-	Trusted  []string
-	Assume   []string
+	ID         string
+	Title      string
+	Level      string   // evidence level category
+	Rules      []string // obligations of these rules decide the property
+	Floors     map[string]int
+	Explain    string
+	Trusted    []string
+	Assume     []string
 	Exhaustive bool
 }
 
@@ -24,88 +24,88 @@ var axChecker = "the purpose-built analyser (bipcheck) implements the rules of D
 // Properties is the table of claimed properties.
 var Properties = []Property{
 	{ID: "C01", Title: "Mnemonic encoding conforms to BIP39", Level: "proof",
-		Rules: []string{"ANCHOR", "G1a", "G4", "T1", "T2", "T2c", "T5w", "T5d", "T6", "L1", "E1enc"},
-		Floors: map[string]int{"T1.constants": 10, "T5.words": 20480, "T2.contexts": 50, "L1.contexts": 50, "G.gates": 3},
+		Rules:   []string{"ANCHOR", "G1a", "G4", "T1", "T2", "T2c", "T5w", "T5d", "T6", "L1", "E1enc"},
+		Floors:  map[string]int{"T1.constants": 10, "T5.words": 20480, "T2.contexts": 50, "L1.contexts": 50, "G.gates": 3},
 		Explain: "Abstract interpretation of NewMnemonicByEntropy and NewMnemonic over a bit-layout domain: in each of the 5 sizes x 10 languages (both entry points) the value returned is strings.Join(a, sep) where a has 3*len/4 elements, each written exactly once, a[p] = list_K[S<11(W-1-p):+11>] with S = checksum bits (top ENT/32 bits of SHA-256(entropy)[0]) below the entropy bits, list_K the canonical list of language K (digest-checked literal, never written), sep U+3000 for Japanese and U+0020 otherwise. The entropy bits are a symbol, so the result holds for all 2^ENT inputs; the loop is summarised by recurrence R1 (X' = X >> 11), not unrolled.",
 		Trusted: []string{axSHA, axBig, axJoin, axTool, axChecker, "BIP39 parameter table and the ten list digests held in the checker"}},
 	{ID: "C02", Title: "Every valid mnemonic validates", Level: "proof",
-		Rules: []string{"ANCHOR", "L1", "L1n", "T6", "T6n", "T6v", "T5w", "T3", "G1a", "G2a", "G3a", "L2w", "L2", "L3", "S2a", "S3", "T2", "T2n", "G4", "G4n", "E1enc", "E1val", "F1"},
-		Floors: map[string]int{"T3.maps": 10, "L2.contexts": 50, "L1.contexts": 50},
+		Rules:   []string{"ANCHOR", "L1", "L1n", "T6", "T6n", "T6v", "T5w", "T3", "G1a", "G2a", "G3a", "L2w", "L2", "L3", "S2a", "S3", "T2", "T2n", "G4", "G4n", "E1enc", "E1val", "F1"},
+		Floors:  map[string]int{"T3.maps": 10, "L2.contexts": 50, "L1.contexts": 50},
 		Explain: "Composition of discharged premises: the encoder emits word p = list_K[S<11(W-1-p):+11>] (L1); the separator survives NFKD and is what the validator splits on, words are NFKD-stable and contain no separator (T5,T6); the lookup map is the inverse of the same list (T3); W is accepted (G3); the validator rebuilds acc = I[0]..I[W-1] MSB first, hashes exactly ENT/8 bytes Fixed(acc<CS:>, L) (L2w, L2) and returns nil on the equal edge of Cmp(SHA256(..)<top CS bits>, acc<0:CS>) (L3, S2); substituting I[p] := S<11(W-1-p):+11> makes both sides the same bits; IsMnemonicValid is CheckMnemonic == nil (S3).",
 		Trusted: []string{axSHA, axBig, axJoin, axNFKD, axOnce, axTool, axChecker}},
 	{ID: "C03", Title: "Validation never accepts an ill-formed or wrong-checksum mnemonic", Level: "proof",
-		Rules: []string{"ANCHOR", "F1", "G3", "T3", "T5w", "T6v", "L2w", "L2", "L3", "S2a", "S3", "E1val"},
-		Floors: map[string]int{"T3.maps": 10, "L2.contexts": 50, "S2.exits": 100},
+		Rules:   []string{"ANCHOR", "F1", "G3", "T3", "T5w", "T6v", "L2w", "L2", "L3", "S2a", "S3", "E1val"},
+		Floors:  map[string]int{"T3.maps": 10, "L2.contexts": 50, "S2.exits": 100},
 		Explain: "The accept condition is read off the dominators of the only `return nil`: count in {12,15,18,21,24} (exact accept set from the gate analysis), every token found in the map that is the inverse of the language's canonical list, and Cmp == 0 between the top CS bits of SHA-256 over exactly ENT/8 bytes of the recovered entropy and the low CS bits of the token integer. All strings are covered because tokens and lookup results are symbols.",
 		Trusted: []string{axSHA, axBig, axJoin, axNFKD, axOnce, axTool, axChecker}},
 	{ID: "C04", Title: "Seed derivation equals BIP39 PBKDF2-HMAC-SHA512", Level: "proof",
-		Rules: []string{"ANCHOR", "F2", "F2n", "F2r"},
-		Floors: map[string]int{},
+		Rules:   []string{"ANCHOR", "F2", "F2n", "F2r"},
+		Floors:  map[string]int{},
 		Explain: "MnemonicToSeed is one call pbkdf2.Key([]byte(NFKD(m)), []byte(NFKD(\"mnemonic\"+p)), 2048, 64, sha512.New) whose result is returned unchanged; neither argument is used in any other way (non-interference over the SSA def-use graph); no module function is reachable from it, so it neither validates nor touches package state. NFKD(\"mnemonic\"+p) = \"mnemonic\"+NFKD(p) because 'c' is a starter.",
 		Trusted: []string{"golang.org/x/crypto/pbkdf2.Key is PBKDF2 and returns a fresh slice", axNFKD, axTool, axChecker}},
 	{ID: "C05", Title: "The mnemonic is a lossless encoding", Level: "proof",
-		Rules: []string{"ANCHOR", "L1", "T5w", "T6", "T2", "G1a", "G4", "E1enc"},
-		Floors: map[string]int{"T5.words": 20480, "L1.contexts": 50},
+		Rules:   []string{"ANCHOR", "L1", "T5w", "T6", "T2", "G1a", "G4", "E1enc"},
+		Floors:  map[string]int{"T5.words": 20480, "L1.contexts": 50},
 		Explain: "L1 shows the W windows S<11(W-1-p):+11> partition the ENT+CS bits in position order, so every entropy bit occurs in exactly one emitted index; T5 shows index -> word is injective (2048 pairwise distinct words per list) and no word contains a separator, so the sentence determines the indices and hence the entropy.",
 		Trusted: []string{axSHA, axBig, axJoin, axTool, axChecker}},
 	{ID: "C06", Title: "NewMnemonic is fail-closed and uses exactly the source's bytes", Level: "proof",
-		Rules: []string{"ANCHOR", "F3", "F3c", "F3d", "F3e", "G2a", "G2r", "G4n", "G4nx", "L1n", "T2n", "T2nc", "T6n", "E1enc", "E1src"},
-		Floors: map[string]int{"G.gates": 3},
+		Rules:   []string{"ANCHOR", "F3", "F3c", "F3d", "F3e", "G2a", "G2r", "G4n", "G4nx", "L1n", "T2n", "T2nc", "T6n", "E1enc", "E1src"},
+		Floors:  map[string]int{"G.gates": 3},
 		Explain: "The source is read by io.ReadFull into a whole make([]byte, 4n/3) buffer; the read error is tested alone, the failure edge returns (\"\", non-nil) and the encoder is dominated by the success edge; between read and encoder nothing writes the buffer, and the encoder's inputs are exactly the bytes read (layout symbol E of the read). Fragmentation and failure points are quantified inside the io.ReadFull contract.",
 		Trusted: []string{"io.ReadFull(r, b) returns nil iff it filled b completely, however r fragments its reads", axBig, axSHA, axTool, axChecker}},
 	{ID: "C07", Title: "Default randomness is the OS CSPRNG", Level: "proof",
-		Rules: []string{"ANCHOR", "F3", "F3a", "F3b", "F3c", "F3d", "F3f", "E1src"},
-		Floors: map[string]int{},
+		Rules:   []string{"ANCHOR", "F3", "F3a", "F3b", "F3c", "F3d", "F3f", "E1src"},
+		Floors:  map[string]int{},
 		Explain: "The variable read by NewMnemonic is initialised to crypto/rand.Reader; the effect index over every non-test function in every analysed build configuration finds no other writer except explicit swaps (a function storing its own parameter, unreachable from init and from the API); its address never escapes; the encoder consumes exactly the bytes read from it.",
 		Trusted: []string{axTool, axChecker}},
 	{ID: "C08", Title: "The ten word lists are canonical and well-formed", Level: "proof", Exhaustive: true,
-		Rules: []string{"ANCHOR", "T5w", "T5d", "T2", "T2c", "T3", "T3c", "T1", "E1lst", "W1"},
-		Floors: map[string]int{"T5.words": 20480, "T5.lists": 10, "T3.maps": 10, "T1.constants": 10, "T2.contexts": 50},
+		Rules:   []string{"ANCHOR", "T5w", "T5d", "T2", "T2c", "T3", "T3c", "T1", "E1lst", "W1"},
+		Floors:  map[string]int{"T5.words": 20480, "T5.lists": 10, "T3.maps": 10, "T1.constants": 10, "T2.contexts": 50},
 		Explain: "All 10 x 2048 words are read from the syntax tree as constants: non-empty, pairwise distinct, free of White_Space and controls, each equal to its own NFKD image, SHA-256 of the list equal to the frozen digest; each list variable is initialiser-only (never written after its declaration, not even from init()); the encoder selects list K for language K and the validator's map K is built as the inverse of that same variable.",
 		Trusted: []string{"list digests frozen in the checker (English = published bip-0039/english.txt digest; the other nine = pinned commit)", axNFKD, axTool, axChecker}},
 	{ID: "C09", Title: "Only the five sizes; sentinel errors otherwise", Level: "proof",
-		Rules: []string{"ANCHOR", "G1", "G1a", "G1e", "G2", "G2a", "G2e", "G2r", "S1", "G4", "G4x", "G4n", "G4nx", "T5w"},
-		Floors: map[string]int{"G.gates": 3, "G.accepted": 15, "S1.sentinels": 3},
+		Rules:   []string{"ANCHOR", "G1", "G1a", "G1e", "G2", "G2a", "G2e", "G2r", "S1", "G4", "G4x", "G4n", "G4nx", "T5w"},
+		Floors:  map[string]int{"G.gates": 3, "G.accepted": 15, "S1.sentinels": 3},
 		Explain: "Exact reach-set analysis over the full int range: the success exits of NewMnemonicByEntropy / NewMnemonic are reached with exactly {16,20,24,28,32} / {12,15,18,21,24}; every other value reaches only exits returning (\"\", ErrEntropyLen / ErrWordLen); the source is read only with accepted counts; success returns a join of >= 12 non-empty words and nil.",
 		Trusted: []string{axTool, axChecker}},
 	{ID: "C10", Title: "Validation invariant under Unicode-equivalent spellings", Level: "proof",
-		Rules: []string{"ANCHOR", "F1", "T5w", "T6v", "S3"},
-		Floors: map[string]int{"T5.words": 20480},
+		Rules:   []string{"ANCHOR", "F1", "T5w", "T6v", "S3"},
+		Floors:  map[string]int{"T5.words": 20480},
 		Explain: "Non-interference: the only use of the raw argument of CheckMnemonic / IsMnemonicValid is as the operand of norm.NFKD.String, so the verdict is a function of NFKD(input); every list word is NFKD-stable so normalised input can match; the tokeniser splits on the NFKD image of both separators.",
 		Trusted: []string{axNFKD, axTool, axChecker}},
 	{ID: "C11", Title: "Seed invariant under Unicode-equivalent spellings", Level: "proof",
-		Rules: []string{"ANCHOR", "F2n"},
-		Floors: map[string]int{},
+		Rules:   []string{"ANCHOR", "F2n"},
+		Floors:  map[string]int{},
 		Explain: "Non-interference for both parameters of MnemonicToSeed: each reaches only norm.NFKD (the passphrase after concatenation with a constant, which preserves the property), so equal NFKD forms give equal PBKDF2 inputs.",
 		Trusted: []string{axNFKD, "pbkdf2.Key is a function of its arguments", axTool, axChecker}},
 	{ID: "C12", Title: "Concurrent cold-start use is race-free and equals sequential use", Level: "proof",
-		Rules: []string{"ANCHOR", "E1", "T3", "E2", "F4", "F3a", "F3b"},
-		Floors: map[string]int{"E1.classified": 31, "E1.once-built": 10, "E1.guard": 10, "T3.maps": 10, "T3.guards": 10},
+		Rules:   []string{"ANCHOR", "E1", "T3", "E2", "F4", "F3a", "F3b"},
+		Floors:  map[string]int{"E1.classified": 31, "E1.once-built": 10, "E1.guard": 10, "T3.maps": 10, "T3.guards": 10},
 		Explain: "Guarded-by discipline over all package-level variables: each is initialiser-only (only its declaration writes it and nothing writes its referent), or a lookup map written only inside the one function its own sync.Once runs and read only after that Once's Do, or a sync.Once used only as a Do receiver, or the randomness source (initialised to crypto/rand.Reader, which is safe for concurrent use, and with no non-test writer). No go statement, channel, atomic, unsafe or reflect in the library. The discipline is schedule-independent, so it covers all interleavings.",
 		Trusted: []string{axOnce, "sha256.New, big.Int locals, norm, pbkdf2 and crypto/rand.Reader are safe as used (library thread-safety)", axTool, axChecker}},
 	{ID: "C13", Title: "No history dependence, no mutation", Level: "proof",
-		Rules: []string{"ANCHOR", "E1", "T3", "F4", "F2r", "E2"},
-		Floors: map[string]int{"E1.classified": 31, "E1.once-built": 10, "T3.maps": 10, "F4.params": 1},
+		Rules:   []string{"ANCHOR", "E1", "T3", "F4", "F2r", "E2"},
+		Floors:  map[string]int{"E1.classified": 31, "E1.once-built": 10, "T3.maps": 10, "F4.params": 1},
 		Explain: "The only retained state is the ten once-built maps, each a function of its own initialiser-only list and built by the one function its guard ever runs (no cross-language leakage in any order); the entropy slice and everything aliasing it is only read (hash.Write, big.Int.SetBytes, len); no exported function returns memory reached through a package-level variable; MnemonicToSeed returns the fresh slice of pbkdf2.Key.",
 		Trusted: []string{axOnce, "read-only allow-list of library calls (DESIGN.md §5 F4)", axTool, axChecker}},
 	{ID: "C14", Title: "No exported function panics or hangs", Level: "other",
-		Rules: []string{"ANCHOR", "P1", "P2", "P3", "P4", "P5"},
-		Floors: map[string]int{"P.exported": 6, "P.contexts": 100},
+		Rules:   []string{"ANCHOR", "P1", "P2", "P3", "P4", "P5"},
+		Floors:  map[string]int{"P.exported": 6, "P.contexts": 100},
 		Explain: "Every exported function and method of the root package is evaluated in all its contexts (accepted sizes, the rejected class, ten languages and the two intervals of other Language values): every index/slice is in bounds, every integer and big.Int divisor non-zero, every shift count and make size non-negative, FillBytes buffers wide enough, map updates on non-nil maps, every loop a range or a counter moving toward its bound, no panic/log.Fatal/os.Exit/unchecked type assertion, call graph acyclic. Necessary-and-here-sufficient conditions over module code; totality of library calls under these preconditions is assumed; memory/time on huge inputs is not decided.",
 		Trusted: []string{"stdlib functions called by the package neither panic nor diverge when the checked preconditions hold", axTool, axChecker}},
 	{ID: "C15", Title: "Validation errors identify the kind of failure", Level: "proof",
-		Rules: []string{"ANCHOR", "S2a", "S2e", "S1", "G3", "G3a", "G3e", "L3", "L2w"},
-		Floors: map[string]int{"S2.exits": 100, "S1.sentinels": 3},
+		Rules:   []string{"ANCHOR", "S2a", "S2e", "S1", "G3", "G3a", "G3e", "L3", "L2w"},
+		Floors:  map[string]int{"S2.exits": 100, "S1.sentinels": 3},
 		Explain: "Every exit of CheckMnemonic is classified by the branch edges dominating it: count-reject exits (reached only with counts outside the five) return ErrWordLen; exits on the miss edge of a lookup return a fresh non-nil error whose format consumes the token; after all lookups hit, the unequal edge of the checksum comparison returns ErrChecksumIncorrect and the equal edge is the only return nil; the hash is over exactly ENT/8 bytes so a correct checksum cannot be reported as incorrect.",
 		Trusted: []string{"fmt.Errorf / errors.New never return nil", axTool, axChecker}},
 	{ID: "C16", Title: "Each language has its own printable name", Level: "proof", Exhaustive: true,
-		Rules: []string{"ANCHOR", "T4", "T1", "E1str"},
-		Floors: map[string]int{"T4.contexts": 12, "T1.constants": 10},
+		Rules:   []string{"ANCHOR", "T4", "T1", "E1str"},
+		Floors:  map[string]int{"T4.contexts": 12, "T1.constants": 10},
 		Explain: "Language.String is evaluated with the receiver equal to each declared constant (result must fold to the constant's identifier) and with the receiver ranging over each interval of other values (result must be \"Language(\"+decimal(receiver)+\")\" and every index/slice met must be in bounds): a complete partition of the int range.",
 		Trusted: []string{"strconv.FormatInt(x,10) is the decimal rendering", axTool, axChecker}},
 	{ID: "C17", Title: "The word-list generator reproduces its input", Level: "other",
-		Rules: []string{"ANCHOR", "W1", "W2", "W3", "T5d"},
-		Floors: map[string]int{"W1.entries": 10, "W3.nodes": 10},
+		Rules:   []string{"ANCHOR", "W1", "W2", "W3", "T5d"},
+		Floors:  map[string]int{"W1.entries": 10, "W3.nodes": 10},
 		Explain: "Structural necessary conditions only: the stem->variable table agrees with the upstream stems, the committed files and the variables the library reads; main passes (stem, variable) in that order and stops on error; the words given to the template are strings.Split(string(ReadAll(Get(url/stem.txt).Body)), \"\\n\") with no call in between; the output is <dir>/<stem>.go opened with O_CREATE|O_TRUNC; every error is returned; the template tree is `package wordlist; var {{.Variable}} = []string{ {{range .WordList}}{{if .}}\"{{.}}\",{{end}}{{end}} }`. The rendered bytes, compilation of the output and HTTP failure modes are not decided.",
 		Trusted: []string{"html/template renders text outside HTML contexts as modelled (changes only NUL \" & ' + < >)", axTool, axChecker}},
 }
